@@ -6,7 +6,10 @@ package props
 
 import (
 	"context"
+	"crypto/ecdsa"
+	"crypto/rsa"
 	"fmt"
+	fdo "github.com/fido-device-onboard/go-fdo"
 	"strconv"
 	"strings"
 	"sync"
@@ -171,7 +174,27 @@ func runHistory(p core.Params) (line, impl string) {
 		e.AcceptTTL = func(uint32) (uint32, error) { return uint32(ttl), nil }
 		defer func() { e.AcceptTTL = nil }()
 	}
-	d := raw.NewDriver(e, dev, raw.Config{Kex: kexByName(p["kex"]), Cipher: kex.CipherSuiteID(cipher), Reuse: reuse})
+	ownerRole := ""
+	if p["chain2"] == "1" {
+		// the voucher goes on to a second owner: manufacturer -> owner -> o2. "owner" is now a former owner.
+		if ov, err := e.DB.RemoveVoucher(ctx, dev.Cred.GUID); err == nil {
+			var ext *fdo.Voucher
+			switch pub := env.Key(spec, "o2").Public().(type) {
+			case *ecdsa.PublicKey:
+				ext, err = fdo.ExtendVoucher(ov, env.Key(spec, "owner"), pub, nil)
+			case *rsa.PublicKey:
+				ext, err = fdo.ExtendVoucher(ov, env.Key(spec, "owner"), pub, nil)
+			}
+			if err == nil && ext != nil {
+				err = e.DB.AddVoucher(ctx, ext)
+				ownerRole = "o2"
+			}
+			if err != nil {
+				lastHist.Err = "chain2: " + err.Error()
+			}
+		}
+	}
+	d := raw.NewDriver(e, dev, raw.Config{Kex: kexByName(p["kex"]), Cipher: kex.CipherSuiteID(cipher), Reuse: reuse, OwnerRole: ownerRole})
 	d.Other = other
 	d.KeepRejectedKeys = p["keepkeys"] == "1"
 	invfail := -1 // index of the step during which the token store fails to invalidate (fault injection)
